@@ -47,6 +47,20 @@ EVIDENCE_NOTES = [
     "'empty' / 'full' in the theorems are the code's own tests (write_cursor = IDX(read_cursor+1); cursor = reader position; "
     "cnt = 0 / capacity; back->cnt = 0).  That the ring's test means 'no unread message' needs the documented no-lapping "
     "usage and is the data-path invariant of C02 (Example ring_lapped_reader_sleeps shows a lapped reader going to sleep)",
+    "FAIR SCHEDULES (rounds scheduling every thread at least once, scheme of coq/C14/ProofsFair.v, generic argument in "
+    "C03/FairGen.v): chan_no_lost_wakeup_fair (channel with futex reader, capacity 2^k >= 4, any number of writers behind the "
+    "write mutex, balanced scripts, unboundedly many interrupted / spurious futex returns and FULL retries) and "
+    "ring_no_lost_wakeup_fair (wait / single-wait / read-once readers, spin-lock or single writer, fewer than capacity "
+    "messages so that nobody is lapped): from every reachable state every thread has finished after more than M rounds, M an "
+    "explicit measure; both with a round-robin non-vacuity theorem in which the readers really sleep and are really woken.  "
+    "They rest on data-path accounting proved for these models (ghost counters W/R behind the cursors, 0 <= W-R <= cap-2, the "
+    "stale read-cursor register under the write lock, no wrap of the ring cursor).  NOT covered: (1) the condvar-mode channel -- "
+    "the statement is false under this fairness notion once a writer can bounce off a full channel, because its retry takes "
+    "read_mutex and a fair-by-rounds schedule may give the reader its turn only then (theorem "
+    "chan_cv_fair_schedule_can_starve_reader: 2000 fair rounds, reader never asleep, never gets the mutex); same with unboundedly "
+    "many spurious condvar wake-ups; this is mutex unfairness plus the client's retry loop, not a lost wake-up, and the safety "
+    "theorems chan_cv_no_deadlock / chan_cv_no_lost_wakeup hold; (2) the busy-loop reader modes of channel and ring are not "
+    "modelled in C03 at all (they have no sleep/wake protocol; their termination is pure data path, C01/C02)",
     "abq_balanced_scripts_never_stuck / dbuf_balanced_scripts_never_stuck: with balanced scripts the 'somebody finished early' "
     "end states are unreachable (counting invariant over the remaining script lengths); the analogous statement for the two "
     "channel models and the ring (reader asks for exactly the number of accepted messages => never blocked at the end) is NOT "
@@ -82,10 +96,11 @@ def _split(total, parts, rng):
 
 def _scenario(rng, kind):
     if kind in ("chanf", "chanm"):
-        cap = rng.choice([3, 4, 4, 8])
+        cap = rng.choice([3, 4, 4, 8, 8])
         wl = rng.choice(["mutex", "mutex", "single"])
         nw = 1 if wl == "single" else rng.range(1, 3)
-        ks = [rng.range(1, 4) for _ in range(nw)]
+        # capacity 8: scripts long enough for a backlog of more than capacity/2 messages
+        ks = [rng.range(1, 4) for _ in range(nw)] if cap != 8 else [rng.range(2, 6 if nw == 1 else 3) for _ in range(nw)]
         return "%s %d %s R %d W %s" % (kind, cap, wl, sum(ks), " ".join(map(str, ks)))
     if kind == "ring":
         md = rng.choice(["wait", "wait", "single", "once"])
@@ -122,6 +137,8 @@ KINDS = ["chanf", "abq", "ring", "dbuf", "chanm", "slock"]
 # fixed scenarios used for the model-guided schedules (sleeper parked between check and sleep)
 GUIDED = [
     "chanf 4 single R 2 W 2", "chanf 4 mutex R 3 W 2 1", "chanf 4 mutex R 6 W 2 2 2", "chanf 8 mutex R 4 W 2 2",
+    "chanf 8 single R 5 W 5", "chanf 8 single R 6 W 6", "chanf 8 mutex R 6 W 3 3", "chanf 8 mutex R 5 W 5",
+    "chanf 8 single R 5 W 5", "chanf 8 mutex R 6 W 6", "chanf 8 single R 4 W 4",
     "chanm 4 single R 2 W 2", "chanm 4 mutex R 3 W 2 1", "chanm 4 mutex R 5 W 2 2 1",
     "ring wait 4 single R 3 W 3", "ring wait 4 lock R 3 2 W 2 1", "ring single 4 lock R 3 W 1 2", "ring once 4 lock R 2 1 W 2 1",
     "ring wait 8 lock R 5 5 W 2 2 1",
